@@ -26,9 +26,52 @@ use crate::Value;
 ///
 /// The most natural way to traverse a singly linked list is probably by using
 /// the `list_iter` method.
-#[derive(PartialEq, Clone)]
 pub struct Cons {
     inner: Box<(Value, Value)>,
+}
+
+// `Clone` and `PartialEq` walk the chain of `cdr` fields iteratively (like `Drop` below), so that
+// their stack use depends on the nesting depth of the elements only, not on the length of a list.
+impl Clone for Cons {
+    fn clone(&self) -> Self {
+        let mut head = Cons::new(self.car().clone(), Value::Null);
+        let mut tail = &mut head;
+        let mut cursor = self;
+        loop {
+            match cursor.cdr() {
+                Value::Cons(next) => {
+                    tail.set_cdr(Value::Cons(Cons::new(next.car().clone(), Value::Null)));
+                    tail = match tail.cdr_mut() {
+                        Value::Cons(cell) => cell,
+                        _ => unreachable!(),
+                    };
+                    cursor = next;
+                }
+                other => {
+                    tail.set_cdr(other.clone());
+                    return head;
+                }
+            }
+        }
+    }
+}
+
+impl PartialEq for Cons {
+    fn eq(&self, other: &Cons) -> bool {
+        let (mut a, mut b) = (self, other);
+        loop {
+            if a.car() != b.car() {
+                return false;
+            }
+            match (a.cdr(), b.cdr()) {
+                (Value::Cons(x), Value::Cons(y)) => {
+                    a = x;
+                    b = y;
+                }
+                (x, y) => return x == y,
+            }
+        }
+    }
 }
 
 impl fmt::Debug for Cons {
